@@ -1,15 +1,18 @@
 ---------------------------- MODULE RegionAssign ----------------------------
 (* C11 - lines are assigned to the regions they lie in, clipped, with unique ids.
 
-   Part A (Mode = "assign"): one call of layout_helpers.assign_lines_to_regions on a rectilinear grid.
+   Part A (INIT AInit, NEXT ANext): one call of layout_helpers.assign_lines_to_regions on a rectilinear grid.
    Pixels are the unit; a cell <<i, j>> is the square [2i, 2i+2] x [2j, 2j+2].  A region is a set of cells
    (rectangle, nested rectangle, concave U and L, overlapping rectangle, a self-touching pair of bars).
    A detected line is horizontal: baseline at y = 2j+1 from x = 2a+1 to x = 2b+1 (cell centres), heights (1, 1),
    so its outline is exactly row j between the two end points.  For every candidate pair (bounding-box filter)
    mask_textline_by_region keeps the longest maximal run of the baseline inside the region if it is longer than
    2 px; the id is region id + position of the line in the detected list.
+   A self-touching region is taken as the point set of its cells (what the proposed repair with make_valid does);
+   the current tree clips such a region with its convex hull, which a cell grid cannot express: that defect has no
+   Legacy variant here and is found by conformance checking only.
 
-   Part B (Mode = "extract"): LayoutExtractor.process_page as a small machine over the option set
+   Part B (INIT BInit, NEXT BNext): LayoutExtractor.process_page as a small machine over the option set
    (DETECT_REGIONS, DETECT_LINES, MERGE_LINES, MULTI_ORIENTATION): clear step, one step per orientation
    (stub detector returns the same regions and lines for every orientation), one step per iteration of the
    merge loop.  Line ids are records [rid, n, tag]; Legacy = TRUE drops the orientation tag, which is what the
@@ -24,7 +27,6 @@ EXTENDS Integers, Sequences, FiniteSets, TLC
 
 CONSTANTS Shapes,      \* set of records [name, cells, valid]  (valid = FALSE: the ring touches itself)
           NCols, NRows, MaxRegs, MaxLines,
-          Mode,        \* "assign" | "extract"
           Legacy       \* TRUE: line ids without the orientation tag (current tree)
 
 VARIABLES regs,        \* set of shapes on the page / returned by the stub detector
@@ -74,22 +76,21 @@ Touches(r, l) == \E i \in l.a..l.b : Inside(r, i, l.j)
 
 (* what the statement allows and what it demands for a page (rs = set of shapes, ls = sequence of lines):
    tuples <<region name, line number, x0, x1>> *)
-Allowed(rs, ls) == {<<t[1].name, t[2], PieceX0(ls[t[2]], t[3]), PieceX1(ls[t[2]], t[3])>> :
-                       t \in {t \in rs \X (1..Len(ls)) \X (Cols \X Cols) : t[3] \in Mask(t[1], ls[t[2]])}}
-Mandatory(rs, ls) == {<<t[1].name, t[2], X0(ls[t[2]]), X1(ls[t[2]])>> :
-                       t \in {t \in rs \X (1..Len(ls)) : WhollyInside(t[1], ls[t[2]])}}
+Allowed(rs, ls) == UNION {{<<rn[1].name, rn[2], PieceX0(ls[rn[2]], run), PieceX1(ls[rn[2]], run)>> : run \in Mask(rn[1], ls[rn[2]])} :
+                            rn \in rs \X (1..Len(ls))}
+Mandatory(rs, ls) == {<<rn[1].name, rn[2], X0(ls[rn[2]]), X1(ls[rn[2]])>> :
+                         rn \in {rn \in rs \X (1..Len(ls)) : WhollyInside(rn[1], ls[rn[2]])}}
 Distinct(s) == \A a, b \in 1..Len(s) : a # b => s[a] # s[b]
 
 -----------------------------------------------------------------------------
 (* Part A: one call *)
-AInit == /\ Mode = "assign"
-         /\ regs \in RegSets /\ lines \in LineLists
+AInit == /\ regs \in RegSets /\ lines \in LineLists
          /\ placed = {}
          /\ opt = [dr |-> FALSE, dl |-> FALSE, merge |-> FALSE, multi |-> FALSE]
          /\ page = <<>> /\ oi = 1 /\ mi = 1 /\ phase = "call"
 Pairs == {rn \in regs \X (1..Len(lines)) : Assign(rn[1], lines[rn[2]]) # {}}
 \* every (line, region) candidate pair in turn; id = region id + number of the line in the detected list
-AssignAll == /\ Mode = "assign" /\ phase = "call"
+AssignAll == /\ phase = "call"
              /\ \E f \in [Pairs -> UNION {Assign(rn[1], lines[rn[2]]) : rn \in Pairs}] :
                   /\ \A rn \in Pairs : f[rn] \in Assign(rn[1], lines[rn[2]])
                   /\ placed' = {[id |-> <<rn[1].name, rn[2]>>, region |-> rn[1].name, line |-> rn[2],
@@ -136,8 +137,7 @@ MandPairs == {<<t[1], t[2]>> : t \in Mandatory(regs, lines)}
 LinesFor(name, rid, P, rot) == LET ns == SeqOfSet({n \in 1..Len(lines) : <<name, n>> \in P})
                                IN [k \in 1..Len(ns) |-> LineId(rid, ns[k], rot)]
 
-BInit == /\ Mode = "extract"
-         /\ regs \in RegSets /\ lines \in LineLists
+BInit == /\ regs \in RegSets /\ lines \in LineLists
          /\ placed = {}
          /\ opt \in [dr : BOOLEAN, dl : BOOLEAN, merge : BOOLEAN, multi : BOOLEAN]
          \* the page comes with the supplied regions and the lines of an earlier plain run
@@ -147,14 +147,14 @@ BInit == /\ Mode = "extract"
          /\ oi = 1 /\ mi = 1 /\ phase = "clear"
 NoAssign == UNCHANGED <<regs, lines, placed, opt>>
 \* if detect_regions: page.regions = [];  if detect_lines: region.lines = [] for the remaining regions
-Clear == /\ Mode = "extract" /\ phase = "clear"
+Clear == /\ phase = "clear"
          /\ page' = IF opt.dr THEN <<>>
                     ELSE IF opt.dl THEN [k \in 1..Len(page) |-> [page[k] EXCEPT !.lines = <<>>]]
                     ELSE page
          /\ phase' = IF opt.dr \/ opt.dl THEN "orient" ELSE IF opt.merge THEN "merge" ELSE "done"
          /\ UNCHANGED <<oi, mi>> /\ NoAssign
 \* one iteration of `for rot in orientations`: detect, build regions, assign lines, extend the page
-Orient == /\ Mode = "extract" /\ phase = "orient" /\ oi <= Len(Orients)
+Orient == /\ phase = "orient" /\ oi <= Len(Orients)
           /\ LET rot == Orients[oi]
                  nm == SeqOfNames(Names)
              IN \E P \in SUBSET AllowedPairs :
@@ -167,24 +167,26 @@ Orient == /\ Mode = "extract" /\ phase = "orient" /\ oi <= Len(Orients)
                      IN page' = IF opt.dr THEN page \o fresh ELSE IF opt.dl THEN grown ELSE page
           /\ oi' = oi + 1
           /\ UNCHANGED <<mi, phase>> /\ NoAssign
-OrientDone == /\ Mode = "extract" /\ phase = "orient" /\ oi > Len(Orients)
+OrientDone == /\ phase = "orient" /\ oi > Len(Orients)
               /\ phase' = IF opt.merge THEN "merge" ELSE "done"
               /\ UNCHANGED <<page, oi, mi>> /\ NoAssign
 \* one iteration of the merge loop of region mi: merge_lines returns m <= c lines, they are assigned to the region
 \* again (ids regenerated from 1); the loop ends when the number of lines did not change
-MergeIter == /\ Mode = "extract" /\ phase = "merge" /\ mi <= Len(page)
+MergeIter == /\ phase = "merge" /\ mi <= Len(page)
              /\ LET c == Len(page[mi].lines)
                 IN \E m \in 0..c :
                      /\ page' = [page EXCEPT ![mi].lines = [n \in 1..m |-> LineId(page[mi].id, n, 0)]]
                      /\ mi' = IF m = c THEN mi + 1 ELSE mi
              /\ UNCHANGED <<oi, phase>> /\ NoAssign
-MergeDone == /\ Mode = "extract" /\ phase = "merge" /\ mi > Len(page)
+MergeDone == /\ phase = "merge" /\ mi > Len(page)
              /\ phase' = "done"
              /\ UNCHANGED <<page, oi, mi>> /\ NoAssign
 
+\* two machines over the same variables: TLC runs Part A with INIT AInit / NEXT ANext and Part B with INIT BInit / NEXT BNext
+ANext == AssignAll
+BNext == Clear \/ Orient \/ OrientDone \/ MergeIter \/ MergeDone
 Init == AInit \/ BInit
-Next == \/ AssignAll
-        \/ Clear \/ Orient \/ OrientDone \/ MergeIter \/ MergeDone
+Next == ANext \/ BNext
 
 RECURSIVE Flat(_)
 Flat(ss) == IF ss = <<>> THEN <<>> ELSE Head(ss) \o Flat(Tail(ss))
